@@ -428,11 +428,21 @@ func (w *world) opMerge(c *inst) {
 	}
 	var err error
 	w.faultMark()
-	if w.guard("MergeMPTChanges", func() { err = p.mpt.MergeMPTChanges(c.mpt) }) {
+	w.armFaults(false)
+	panicked := w.guard("MergeMPTChanges", func() { err = p.mpt.MergeMPTChanges(c.mpt) })
+	w.armFaults(true)
+	if panicked {
 		return
 	}
 	if err != nil && (w.faultHit() || p.degraded || c.degraded) {
 		p.degraded = true
+		for _, o := range w.tries { // everything that reads through the parent's store is affected by a half-applied merge
+			for a := o.parent; a != nil; a = a.parent {
+				if a == p {
+					o.degraded = true
+				}
+			}
+		}
 		w.closeInst(c)
 		w.stats.Inc("fault.any")
 		return
